@@ -147,6 +147,11 @@ impl Session {
                 let payload_len = encrypted_data.as_bytes().len();
                 if payload_len > max_payload_len as usize + MHDR_LEN + MIC_LEN {
                     info!("Dropping oversized payload.");
+                    // A Class C reception is not part of a receive procedure that
+                    // could be completed; the frame is simply ignored.
+                    if ignore_mac {
+                        return Response::NoUpdate;
+                    }
                     return self.rx2_complete(configuration, region);
                 }
             }
